@@ -54,6 +54,39 @@ CHECKS = {
             "Exploration.",
             "SIM kernel model; open findings F-a (collected executor + all workers idle out) and F-i excluded by "
             "construction", "DESIGN.md §6 C05"),
+    "C06": ("SIM", "Hypothesis cases with never-ending (gate) tasks and a forced shutdown (shutdown(kill_workers=True) or "
+                   "get_reusable_executor(kill_workers=True) with changed arguments) placed anywhere by the generated schedule; "
+                   "oracle = the call returns, every unfinished future has ShutdownExecutorError or its own outcome, no worker "
+                   "alive, all joined",
+            "Logical promptness (returns although tasks never end), totality and explicitness checked at quiescence over "
+            "generated pool states and schedules. Exploration.",
+            "SIM part only: kill_process_tree is substituted (descendant killing / psutil-less path are not exercised here); "
+            "SIM kernel model", "DESIGN.md §6 C06"),
+    "C07": ("SIM", "Hypothesis cases with worker timeouts down to 0 and generated memory readings; idle-timer expiry is a "
+                   "scheduler action (timer-eager / PCT / preemption-bounded / random-walk policies); oracle = never broken, "
+                   "exactly-once execution with own outcome, exit codes 0, all futures done",
+            "Every expiry instant the scheduler can choose relative to dispatch, exit announcements, respawn, resize and "
+            "shutdown is a generated input; invariants are evaluated on the full history. Exploration.",
+            "SIM kernel model, fairness bound T; open finding F-a (executor collected with work pending) excluded by "
+            "construction", "DESIGN.md §6 C07"),
+    "C08": ("SIM", "Hypothesis cases; state-by-state sampling of executing bodies and registered workers against the largest "
+                   "max_workers in force (reference computed from the call history), plus a delivery profile observing exactly "
+                   "max_workers concurrent never-ending tasks after the system settled",
+            "Invariant sampled at every body start / spawn over generated histories of submits, timeouts, respawns and "
+            "resizes; delivery observed at a settled point. Exploration.",
+            "SIM kernel model; reads len(executor._processes) (named in the property's observe_at)", "DESIGN.md §6 C08"),
+    "C09": ("SIM", "Hypothesis-generated sequential histories of get_reusable_executor calls with crashes/shutdowns/idle "
+                   "periods against a sequential reference model of instance identity, plus multi-thread races on max_workers; "
+                   "oracle = identity rule, strictly increasing executor_id, requested size, previous workers gone, work done",
+            "Model-based check of the singleton factory over generated histories and schedules. Exploration.",
+            "SIM kernel model; context/env/reducers arguments are not varied (timeout and initializer are)",
+            "DESIGN.md §6 C09"),
+    "C10": ("SIM", "Hypothesis-generated resize histories (old,new in [1..4]^2, in-flight work, timeouts down to 0, 0-1 deaths) "
+                   "under PCT / preemption-bounded / random-walk schedules; oracle = call returns (deadlock/livelock verdicts), "
+                   "prior work completes, live workers == new and min(old,new) previous pids kept when undisturbed",
+            "Termination (exact livelock detection on the polling loops), work preservation and survivor identity over "
+            "generated timer/death placements inside _resize. Exploration.",
+            "SIM kernel model; livelock verdict = only pollers runnable and nothing they poll can change", "DESIGN.md §6 C10"),
 }
 
 NOT_YET = {}
